@@ -23,6 +23,17 @@
 (* section that finds AND removes, sweep = exclusive sections under the    *)
 (* eviction mutex (try_lock: a second sweeper walks away), the usage       *)
 (* counter is updated inside the section that changes the entries.         *)
+(* clear() takes the eviction mutex with a BLOCKING lock() and keeps it    *)
+(* over all buckets: a thread standing at `cache_evlock` inside clear()    *)
+(* cannot take a step while another thread holds the mutex (Blocked), and  *)
+(* a sweep that meets a clearing thread walks away.  clear() is the one    *)
+(* call that reduces the counter AFTER it has released the bucket lock     *)
+(* (`fetch_sub` follows the block that empties the bucket); no lock is     *)
+(* acquired in between, so at this model's granularity - a step ends at    *)
+(* the next acquisition - both belong to one step.  MemExact is therefore  *)
+(* a statement about the states in which every thread stands in front of   *)
+(* a lock acquisition or between calls, which are exactly the states a     *)
+(* controlled execution can be observed in.                                *)
 (* `SplitRemove = TRUE` is the variant "look the position up under the     *)
 (* shared lock, remove it under the exclusive one" (must violate           *)
 (* RemoveLeavesNone / NoStalePosition: a binding / vacuity demonstration). *)
@@ -39,8 +50,9 @@ EXTENDS Naturals, Sequences, FiniteSets, TLC, Json
 CONSTANTS Programs,     \* <<[name, init, threads, high, low]>>; init = <<ops>> run before the threads start
           GenTs,        \* generation id -> timestamp (0 = untagged)
           SplitRemove,  \* FALSE = the design
-          ClearSnapshot, \* FALSE = the design (clear() subtracts what it removes, inside the bucket section);
-                        \* TRUE = the usage counter is read once before the sweep and subtracted afterwards
+          ClearSnapshot, \* FALSE = the design (clear() subtracts what it removes from each bucket);
+                        \* TRUE = the usage counter is read once (under the eviction mutex) before the buckets are
+                        \* emptied and subtracted afterwards
           EmitOneIn
 
 VARIABLES prog, bk,     \* the bucket: <<[k, g, sz, ref]>>
@@ -105,7 +117,7 @@ Begin(s0, t, o) ==
   CASE o.op = "get" -> Goto(s, "cache_rd")
     [] o.op = "rem" -> Goto(s, IF SplitRemove THEN "cache_rd" ELSE "cache_wr")
     [] o.op = "evict" -> Goto(s, "cache_evlock")
-    [] o.op = "clear" -> Goto([s EXCEPT !.l.cu = s.mem], "cache_wr")
+    [] o.op = "clear" -> Goto(s, "cache_evlock")
     [] o.op = "ins" -> IF o.sz > Prog.high \div 4 THEN Ret(s, t, "done")             \* "don't cache very large values"
                        ELSE IF s.mem + o.sz > Prog.high THEN Goto(s, "cache_evlock")
                        ELSE Goto(s, "cache_wr")
@@ -124,7 +136,9 @@ Do(t) ==
                                  !.fl = @ \cup (IF o.g # 0 /\ s.bk[i].g # o.g THEN {"wronggen"} ELSE {})], t, "hit")
          ELSE \* the split remove: position looked up under the shared lock
               IF idx = {} THEN Ret(s, t, "done") ELSE Goto([s EXCEPT !.l.pos = MinOf(idx)], "cache_wr")
-    [] p = "cache_evlock" -> EvLock(s, t, o)
+    [] p = "cache_evlock" ->
+         \* clear(): eviction_lock.lock() - only taken when free (Blocked(t) otherwise); evict_entries(): try_lock
+         IF o.op = "clear" THEN Goto([s EXCEPT !.evl = t, !.l.cu = s.mem], "cache_wr") ELSE EvLock(s, t, o)
     [] p = "cache_wr" ->
          IF s.l.sweep THEN SweepSection(s, t, o)
          ELSE IF o.op = "ins" THEN InsertSection(s, t, o)
@@ -138,8 +152,10 @@ Do(t) ==
                    IF idx = {} THEN Ret(s, t, "done")
                    ELSE LET i == MinOf(idx) IN Ret([s EXCEPT !.bk = RemoveAt(@, i), !.mem = @ - s.bk[i].sz], t, "done")
          ELSE IF o.op = "clear" THEN
-              \* clear(): the bucket is emptied and the usage counter reduced by exactly what was removed, in one section
-              Ret([s EXCEPT !.bk = <<>>, !.mem = IF ClearSnapshot THEN (IF @ >= s.l.cu THEN @ - s.l.cu ELSE 0) ELSE @ - SumSz(s.bk)], t, "ok")
+              \* clear(): the bucket is emptied and the usage counter reduced by exactly what was removed (one step, see
+              \* the head of the module); the eviction mutex is dropped when the call returns
+              Ret([s EXCEPT !.bk = <<>>, !.mem = IF ClearSnapshot THEN (IF @ >= s.l.cu THEN @ - s.l.cu ELSE 0) ELSE @ - SumSz(s.bk),
+                            !.evl = 0, !.fl = @ \cup (IF s.evl # t THEN {"evlock"} ELSE {})], t, "ok")
          ELSE Ret(s, t, "ok")
 
 \* "an explicit remove is never followed by a hit", stated at the step in which the remove returns: no entry that the
@@ -148,8 +164,12 @@ RemoveFlags(t, r) ==
   IF pc[t] \in {"start", "between_ops", "done"} \/ r.pc # "between_ops" THEN {}
   ELSE IF Op(t).op = "rem" /\ Match(r.bk, Op(t).k, Op(t).g) # {} THEN {"removeleft"} ELSE {}
 
+\* a blocking lock() on the eviction mutex while another thread holds it
+Blocked(t) == IF pc[t] = "cache_evlock" THEN Op(t).op = "clear" /\ evl # 0 ELSE FALSE
+
 Step(t) ==
   /\ pc[t] # "done"
+  /\ ~Blocked(t)
   /\ LET r == Do(t) IN
      /\ bk' = r.bk /\ mem' = r.mem /\ evl' = r.evl
      /\ pc' = [pc EXCEPT ![t] = r.pc]
